@@ -66,7 +66,7 @@ ReaderOutcome(kind, tok, text, choices) ==
         ELSE IF tok.type = "DECIMAL_SUFFIX" THEN (IF KnownUnit(SuffixOf(text)) THEN 0 ELSE 0 - 131)
         ELSE IF tok.type = "MNEMONIC" THEN (IF IsSpecial(text) THEN 0 ELSE 0 - 224)
         ELSE 0 - 104)
-  ELSE IF kind = "text"  THEN (IF tok.type \in StringTypes THEN 0 ELSE 0 - 104)
+  ELSE IF kind \in {"text", "tshort"} THEN (IF tok.type \in StringTypes THEN 0 ELSE 0 - 104)
   ELSE IF kind = "block" THEN (IF tok.type = "BLOCK" THEN 0 ELSE 0 - 104)
   ELSE 0      \* "chars": raw access to any item
 (* where the statement leaves the code open (a Boolean with a suffix is both a wrong type and a forbidden suffix) *)
@@ -90,7 +90,7 @@ Delivered(kind, tok, text, choices) ==
   IF kind = "text" THEN Unquote(text, text[1])
   ELSE IF kind = "chars" THEN (IF tok.type \in StringTypes THEN SubSeq(text, 2, Len(text) - 1) ELSE text)
   ELSE IF kind = "block" THEN text
-  ELSE IF kind = "num" THEN AnyVal
+  ELSE IF kind \in {"num", "tshort"} THEN AnyVal
   ELSE IF kind = "choice" THEN DecP(ChoiceTag(choices, text))
   ELSE IF kind = "bool" THEN (IF tok.type = "MNEMONIC" THEN DecP(ChoiceTag(ChoiceOnOff, text))
                              ELSE IF PlainInt(text) THEN (IF IntValue(text) = 0 THEN <<48>> ELSE <<49>>) ELSE AnyVal)
@@ -147,6 +147,7 @@ RunOps(ops, stopOnFail, msg, toks, choices, st) ==
              THEN RunOps(rest, stopOnFail, msg, toks, choices, [st EXCEPT !.items = Append(@, nb), !.open = FALSE, !.obytes = <<>>, !.arb = 0])
              ELSE RunOps(rest, stopOnFail, msg, toks, choices, [st EXCEPT !.obytes = nb, !.arb = left]))
   ELSE IF o[1] = "e" THEN RunOps(rest, stopOnFail, msg, toks, choices, [st EXCEPT !.errs = Append(@, o[2])])
+  ELSE IF o[1] = "q" THEN RunOps(rest, stopOnFail, msg, toks, choices, st)     \* the handler pops one error: no effect on this unit
   ELSE IF o[1] = "x" THEN     \* "apply every API": takes the next item if there is one; what it emits / reports is not specified
        RunOps(rest, stopOnFail, msg, toks, choices,
               [st EXCEPT !.cur = IF st.cur > Len(toks) THEN @ ELSE @ + 1, !.wild = @ \/ st.cur <= Len(toks),
